@@ -106,6 +106,27 @@ fn structured_file_object(r: &mut Rng, v: u8) -> Vec<u8> {
 pub fn hostile_fragment(r: &mut Rng, max: usize) -> Vec<u8> {
     let vars = ra::all_variations();
     let seq = r.below(16) as u8;
+    if r.chance(1, 25) {
+        // READ of device attributes: every variation is a legal request, the two special ones (254 all attributes, 255 list
+        // of variations) and the ends of the set range included
+        let v = if r.bool() { r.pick_copy(&[0u8, 1, 211, 252, 253, 254, 255]) } else { r.u8() };
+        let mut f = vec![0xC0 | seq, ra::F_READ, 0, v];
+        match r.below(4) {
+            0 => f.push(0x06),
+            1 => {
+                let a = r.pick_copy(&[0u8, 1, 254, 255]);
+                f.extend_from_slice(&[0x00, a, a.saturating_add(r.below(2) as u8)]);
+            }
+            2 => f.extend_from_slice(&[0x00, 0, 255]),
+            _ => {
+                let a = r.pick_copy(&[0u16, 255, 256, 65535]);
+                f.push(0x01);
+                f.extend_from_slice(&a.to_le_bytes());
+                f.extend_from_slice(&a.saturating_add(r.below(2) as u16).to_le_bytes());
+            }
+        }
+        return f;
+    }
     let func = match r.below(10) {
         0 => r.u8(),
         1 => ra::F_RESPONSE,
